@@ -77,7 +77,7 @@ pub fn boundary_rich(rng: &mut Rng) -> Vec<u8> {
                     }
                     out.extend_from_slice(b"ab");
                 }
-                out.push(7);
+                out.extend_from_slice(*rng.pick(&[&b"\x07"[..], b"\x1b\\", b"\x18", b"\x1a", b"", b";\x07", b";;\x1b\\"]));
             }
             3 => {
                 // OSC payload around 1024 bytes
@@ -320,7 +320,12 @@ pub fn run(cfg: &Cfg) -> Stats {
         let mut i = shard;
         while i < n {
             let mut rng = Rng::new(cfg.seed, 0xC04_0000_0000 + i);
-            match i % 7 {
+            match i % 8 {
+                7 => {
+                    // one long piece whose length sits on a power-of-two threshold (buffers, block sizes, widths)
+                    let d = if i % 16 == 7 { gen::gen_long_stream(&mut rng, 16384, true) } else { gen::threshold_document(gen::long_len(&mut rng, 16384), (i % 4) as u8, i % 3 == 0) };
+                    eval_bytes(&d, &mut st, &mut rng, "long_threshold");
+                }
                 0 => {
                     let len = rng.range(0, 200);
                     let d: Vec<u8> = (0..len).map(|_| rng.byte()).collect();
@@ -362,10 +367,10 @@ pub fn run(cfg: &Cfg) -> Stats {
             if let Err((sig, msg)) = exercise_values(&mut rng) {
                 st.viol(&sig, msg, Case::new("c04-values").n(cfg.seed as i64).n(i as i64));
             }
-            if i < 7 {
-                st.sample(7, || {
+            if i < 8 {
+                st.sample(8, || {
                     let mut o = J::obj();
-                    o.set("kind_index", J::UInt(i % 7));
+                    o.set("kind_index", J::UInt(i % 8));
                     o.set("entry_points", J::s("Parser::advance, strip_bytes, strip_str, StripStr, StripBytes, WinconBytes, StripStream (write/write_all/write_vectored/write_fmt/flush), AutoStream::never, render_svg x2, to_roff/render, anstyle_git::parse, anstyle_ls::parse, anstyle_lossy x8 with a random palette, Style/Color/Effects rendering"));
                     o
                 });
@@ -374,13 +379,60 @@ pub fn run(cfg: &Cfg) -> Stats {
         }
         st
     });
+    // deterministic colour sweep: every grey and a lattice of component values around the cube / ramp levels, through the
+    // lossy conversions with the two shipped palettes and through the colour renderers (tiny tier: every 8th grey)
+    let sweep = par(cfg, |shard, nsh| {
+        let mut st = Stats::new();
+        let lv: &[u8] = if cfg.tier == Tier::Tiny { &[0, 95, 248, 255] } else { &[0, 1, 7, 8, 9, 47, 48, 94, 95, 96, 114, 115, 116, 135, 155, 175, 195, 215, 235, 238, 247, 248, 249, 254, 255] };
+        let mut cols: Vec<[u8; 3]> = (0..=255u8).step_by(if cfg.tier == Tier::Tiny { 8 } else { 1 }).map(|v| [v, v, v]).collect();
+        for r in lv {
+            for g in lv {
+                for b in lv {
+                    cols.push([*r, *g, *b]);
+                }
+            }
+        }
+        for (k, c) in cols.iter().enumerate() {
+            if k as u64 % nsh != shard {
+                continue;
+            }
+            st.eval();
+            st.nontrivial_enum();
+            st.count("colour_sweep_values");
+            let rgb = anstyle::RgbColor(c[0], c[1], c[2]);
+            let r = step("anstyle_lossy", || {
+                let x = anstyle_lossy::rgb_to_xterm(rgb);
+                for pal in [anstyle_lossy::palette::VGA, anstyle_lossy::palette::WIN10_CONSOLE] {
+                    let a = anstyle_lossy::rgb_to_ansi(rgb, pal);
+                    let _ = anstyle_lossy::xterm_to_ansi(x, pal);
+                    let _ = anstyle_lossy::color_to_rgb(anstyle::Color::Ansi(a), pal);
+                }
+                let col = anstyle::Color::Rgb(rgb);
+                format!("{}{}{}", col.render_fg(), col.render_bg(), anstyle::Style::new().underline_color(Some(col))).len()
+            });
+            if let Err((sig, msg)) = r {
+                st.viol(&sig, format!("{msg} -- colour {:?}", c), Case::new("c04-colour").n(c[0] as i64).n(c[1] as i64).n(c[2] as i64));
+            }
+        }
+        st
+    });
+    st.merge(sweep);
     st.notes.push("oracles of this workload: no panic / no overflow trap; pieces returned by the text strip adapters are valid UTF-8 inside the input; everything else is watched by the lane (debug assertions, Miri, ASan, valgrind)".into());
     st
 }
 
 pub fn replay(case: &Case) -> Result<String, Viol> {
     let mut rng = Rng::new(1, 1);
-    let r = if case.kind == "c04-values" {
+    let r = if case.kind == "c04-colour" {
+        let g = |i: usize| case.nums.get(i).copied().unwrap_or(0) as u8;
+        let rgb = anstyle::RgbColor(g(0), g(1), g(2));
+        step("anstyle_lossy", || {
+            let _ = anstyle_lossy::rgb_to_xterm(rgb);
+            let _ = anstyle_lossy::rgb_to_ansi(rgb, anstyle_lossy::palette::VGA);
+            format!("{}", anstyle::Color::Rgb(rgb).render_fg()).len()
+        })
+        .map(|_| ())
+    } else if case.kind == "c04-values" {
         let mut r2 = Rng::new(case.nums.first().copied().unwrap_or(1) as u64, 0xC04_0000_0000 + case.nums.get(1).copied().unwrap_or(0) as u64);
         exercise_values(&mut r2)
     } else {
